@@ -33,7 +33,7 @@ ASSUMPTIONS = [
     "wait=True is only combined with complete crops (it would wait forever)",
 ]
 
-SCNS = ["raw-bs2", "raw-bool", "runner", "runner-df", "harv-jl-overlap",
+SCNS = ["raw-bs2", "raw-bool", "runner", "runner3", "runner-df", "harv-jl-overlap",
         "harv-h5-disjoint", "harv-jl-none", "samp-pkl", "samp-pkl-none"]
 # failures whose corrected retry is also made through the very objects (Crop
 # and its farmer) that saw the failure - a long-lived session
@@ -55,7 +55,7 @@ def cases(tier, seed):
                 fails = ["incomplete"]
             if state == "complete":
                 fails += ["garbage", "overlong", "shortres"]
-                if scn == "runner" or scn.startswith("harv"):
+                if scn in ("runner", "runner3") or scn.startswith("harv"):
                     # (DataFrame output does not validate the description)
                     fails.append("wrongdesc")
                 if scn.startswith("harv"):
@@ -281,7 +281,10 @@ def check_case(case):
     if fl == "wrongdesc":
         crop = sc.fresh_crop(d)
         runner = crop.runner
-        runner.var_names = ("out", "extra")
+        # (more names than the function has outputs - or, three outputs, one
+        # name too few)
+        runner.var_names = ("out", "half") if case["scn"] == "runner3" \
+            else ("out", "extra")
         runner.var_dims = None
         pre = crop_tree(d)
         try:
